@@ -87,24 +87,17 @@ pub fn run(ctx: &Ctx) -> Report {
         let c = Case::new("distinct_pairs", vec![]);
         viol!(acc, P, "not-bijective", &c, "accepted type values do not map one-to-one onto (class, method) pairs", "16384 accepted values, 16384 distinct pairs", format!("{accepted} accepted, {} distinct", pairs.len()));
     }
-    // labelled observation (not an enumeration): generated ids fit in 96 bits
-    let mut max_seen = 0u128;
-    for _ in 0..100_000 {
-        let t: u128 = TransactionId::generate().into();
-        max_seen = max_seen.max(t);
-        if t >> 96 != 0 {
-            let c = Case::new("generate", t.to_be_bytes().to_vec());
-            viol!(acc, P, "generate-wide", &c, "TransactionId::generate() produced an id wider than 96 bits", "< 2^96", format!("{t:#x}"));
-            break;
-        }
-    }
-    acc.outcome_n("generate() observed (RNG observation, not enumeration)", 100_000);
+    // every id of a long run of generate() calls on one thread fits in 96 bits and survives the wire:
+    // 2^24 + 2^16 calls (thorough: 2^32 + 2^16), so that a counter or state kept per thread is taken
+    // across the 2^24 (2^32) boundary.  The random part is observed, not enumerated.
+    let n_gen: i64 = if ctx.tier == Tier::Thorough { (1i64 << 32) + (1 << 16) } else { (1i64 << 24) + (1 << 16) };
+    crate::props::judge_guarded(judge, &Case::new("generate", vec![]).args(&[n_gen]), &mut acc);
     acc.nontrivial = n_cases;
     Report {
         acc,
         exhaustive: true,
         rule: "every 16-bit type-field value; every (class, method) pair 4x4096 (also as the header of messages carrying one attribute of each of 8 kinds, built directly and after into_owned); transaction ids: walking one/zero over 128 bits, every byte lane x 256 values x 3 backgrounds, 16-bit windows at every bit offset, boundary patterns; each case is distinct by construction".into(),
-        bounds: json!({"type_field_values": 65536, "class_method_pairs": 16384, "tids": "~13 000 (see rule)", "generate_observations": 100000}),
+        bounds: json!({"type_field_values": 65536, "class_method_pairs": 16384, "tids": "~13 000 (see rule)", "generate_observations": "2^24 + 2^16 (thorough 2^32 + 2^16) consecutive calls on one thread"}),
         assumptions: vec!["TransactionId::generate(): only the masking constructor it goes through is enumerated; RNG output is observed, not explored".into()],
         ..Default::default()
     }
@@ -262,6 +255,33 @@ pub fn judge(case: &Case, acc: &mut Acc) {
                                 viol!(acc, P, "response-builder-type", case, "builder_success / builder_error do not carry the request's method and transaction id under the RFC interleaving", crate::refimpl::crypto::hex(&want), fmt_bytes(&resp));
                             }
                         }
+                    }
+                }
+            }
+        }
+        "generate" => {
+            let n = case.args[0];
+            acc.outcome_n("generate() observed (RNG observation, not enumeration)", n as u64);
+            let mut prev: u128 = u128::MAX;
+            for i in 0..n {
+                let id = TransactionId::generate();
+                let t: u128 = id.into();
+                if t >> 96 != 0 {
+                    viol!(acc, P, "generate-wide", case, "TransactionId::generate() produced an id wider than 96 bits", "< 2^96", format!("{t:#x} at call {i} of this thread"));
+                    break;
+                }
+                if t == prev {
+                    viol!(acc, P, "generate-repeats", case, "two consecutive TransactionId::generate() calls returned the same id", "different ids", format!("{t:#x} at calls {} and {i}", i - 1));
+                    break;
+                }
+                prev = t;
+                // every 4096th id (and the ones around powers of two of the call count) through a header
+                if i % 4096 == 0 || (i & (i + 1)) == 0 || (i & (i - 1).max(0)) == 0 {
+                    let b = Message::builder(MessageType::from_class_method(real::class_of(0), 1), id).build();
+                    let want = &t.to_be_bytes()[4..16];
+                    if b.len() != 20 || &b[8..20] != want {
+                        viol!(acc, P, "generate-wire", case, "a generated id does not appear unchanged in the header of a message built with it", crate::refimpl::crypto::hex(want), fmt_bytes(&b));
+                        break;
                     }
                 }
             }
